@@ -846,6 +846,17 @@ theorem built_knownNodup {β : Type} {T : Tables} (hT : T.OK) {C : BodyCodec β}
   rw [h3]
   exact nodup_map_some _ hnd2
 
+/-- The known fields of the specification message of a constructed `m` say exactly what the attributes of `m` are. -/
+theorem built_view {β : Type} {T : Tables} (hT : T.OK) {C : BodyCodec β} {na : Char → Bool} {maxLen : Nat} {st st' : St}
+    {c : Call β} {m : Msg β} {sm : SpecMsg} (hb : Built T C na maxLen st st' c m sm) (fds : Option (List PyVal)) (a : Attr) :
+    (match fieldFor T sm.fields a with
+     | some hv => pyOf fds hv
+     | none => PyVal.none) = plain (m.attrs a) := by
+  have hknown := built_knownNodup hT hb
+  have e1 := applyFields_perm T sm.fields sm.fields [] (by simp) (by intro f hf; cases hf) hknown fds a
+  rw [← e1, hb.fieldsPy fds]
+  exact own_attrs T hT m.cls (hasFds m) m.attrs (built_inTable hT hb) a
+
 /-- **The bytes another implementation would produce for the same message.**  Let `m` be a constructed message and
 `sm` the specification message it stands for.  For ANY valid message `w` of the same type whose field list is a
 permutation of `sm`'s fields plus fields with unknown codes - any byte order, any serial, flags and body of its own -
